@@ -1208,6 +1208,9 @@ func packCase(sp *spec) {
 	if err == nil || len(rec.events) > 0 {
 		run.Nontrivial(model)
 	}
+	if err == nil && parseErr == nil && run.Evaluations%8 == 0 {
+		docCase(stored)
+	}
 	if err == nil {
 		run.Sample(map[string]any{"fn": sp.Fn, "target": sp.Target, "artifactType": sp.AT, "descriptor": desc, "events": len(rec.events)})
 	}
@@ -1509,4 +1512,28 @@ func nameClash(sp *spec) bool {
 		}
 	}
 	return sp.Config != nil && taken(*sp.Config)
+}
+
+// docCase: what encoding/json reads as mediaType / artifactType of a stored manifest document, against the
+// model's readers of the document head (doc_media_type, doc_artifact_type) on the same bytes.
+func docCase(stored []byte) {
+	id := run.NewID()
+	var top map[string]json.RawMessage
+	obs := "ERR"
+	if json.Unmarshal(stored, &top) == nil {
+		field := func(k string) string {
+			raw, ok := top[k]
+			if !ok {
+				return "NONE"
+			}
+			var v string
+			if json.Unmarshal(raw, &v) != nil {
+				return "ERR"
+			}
+			return common.Hex(v)
+		}
+		obs = field("mediaType") + " " + field("artifactType")
+	}
+	run.Case(id, "D "+common.Hex(string(stored)), obs)
+	run.Count("document_head")
 }
